@@ -21,3 +21,11 @@ static int count(const std::vector<int>& v, bool verbose) {
 }
 int lib_identify(const std::vector<int>& v) { eliminated("x"); return count(v, DFS::verbose); }
 int cat_columns() { const char* c = std::getenv("COLUMNS"); return c ? std::atoi(c) : 80; }
+#include <stdexcept>
+#include <string>
+int cat_columns_throwing()
+{
+  const char* c = std::getenv("COLUMNS");
+  if (!c) return 80;
+  try { return std::stoi(c); } catch (std::logic_error&) { return 80; }
+}
